@@ -27,7 +27,8 @@ RULE = ('instructions parsed from template text / cited transcription (add, comb
         'equal/greater/less boundary cases); (B) end-to-end: solved 2021-2023 returns of all statuses. A check instance is non-trivial when '
         'its operands are not all zero; for floor/conditional sentences both branches are counted separately; distinct = (year, form, line, '
         'operand tuple). Unparsed sentences are listed, never guessed'
-        ' Statement totals: sentences that total boxes of payer statements ("Add the amounts in box 4 of all Forms 1099-R, 1099-DIV, 1099-INT, and 1099-G", transcribed with source; "from Form W-2, box 5" read from the template) are evaluated on the input file, and half of the generated returns are completed so that every such box is filled on every copy. `Figure the tax on line N` is evaluated with the harness\' own rate-schedule reference; status-dependent divisors are checked in isolation with a drawn filing status.')
+        ' Statement totals: sentences that total boxes of payer statements ("Add the amounts in box 4 of all Forms 1099-R, 1099-DIV, 1099-INT, and 1099-G", transcribed with source; "from Form W-2, box 5" read from the template) are evaluated on the input file, and half of the generated returns are completed so that every such box is filled on every copy. `Figure the tax on line N` is evaluated with the harness\' own rate-schedule reference; status-dependent divisors are checked in isolation with a drawn filing status.'
+        ' Schedule B lines 2/6 against the payer statements; lines recorded as closed at the pinned tree (data/closed_lines.json) must not read beyond their instruction; payer-mix and credits-over-tax personas.')
 ASSUMPTIONS = ['"A through B" ranges expand over the form\'s own ordered numeric mapped lines',
                'a sentence with an unrecognised conditional clause is unparsed (no verdict)',
                'plain "Subtract A from B" is only compared when B >= A (sign conventions of blank sections are C15\'s subject)',
